@@ -1,6 +1,6 @@
 (* C01 correspondence harness: the Python driver writes observed implementation behaviour as [case] terms,
    [chk] evaluates the SAME model definitions the theorems are about (vm_compute). *)
-From Miller Require Import Base.Bytes Base.Record C01.Model C01.ModelJson C01.ModelXtab C01.ModelLite C01.ModelPprint C01.ModelMd.
+From Miller Require Import Base.Bytes Base.Record C01.Model C01.ModelJson C01.ModelXtab C01.ModelLite C01.ModelPprint C01.ModelMd C01.ModelDkvpx.
 Open Scope char_scope.
 
 (* compact literals for the generated case files: bytes as a hex string (parses much faster than a list of numbers) *)
@@ -32,7 +32,8 @@ Definition obytes_eqb (a b : option bytes) : bool :=
 Definition orecs_eqb (a b : option (list record)) : bool :=
   match a, b with Some x, Some y => records_eqb x y | None, None => true | _, _ => false end.
 
-(* formats: 0 tsv, 1 dkvp, 2 nidx, 3 csv, 4 json, 5 xtab, 6 csvlite, 7 pprint, 8 markdown *)
+(* formats: 0 tsv, 1 dkvp, 2 nidx, 3 csv, 4 json, 5 xtab, 6 csvlite, 7 pprint, 8 markdown, 9 dkvpx *)
+Definition sep1 (l : list bytes) (i : nat) (d : ascii) : ascii := match sp l i with c :: _ => c | [] => d end.
 Definition model_write (fmt : N) (f : list bool) (s : list bytes) (recs : list record) : option bytes :=
   match fmt with
   | 0%N => write_tsv (fl f 0) (fl f 1) recs
@@ -41,6 +42,7 @@ Definition model_write (fmt : N) (f : list bool) (s : list bytes) (recs : list r
   | 3%N => write_csv (fl f 0) (fl f 1) (fl f 2) (comma_of s) recs
   | 4%N => Some (write_json (fl f 0) (fl f 1) recs)
   | 6%N => Some (write_csvlite (sp s 0) (fl f 0) (fl f 1) recs)
+  | 9%N => Some (write_dkvpx (sp s 0) (sp s 1) (fl f 0) recs)
   | _ => None
   end.
 
@@ -65,6 +67,8 @@ Definition model_read (fmt : N) (f : list bool) (s : list bytes) (text : bytes) 
                  else if fl f 3 then read_pprint_implicit (fl f 0) (fl f 1) text else read_pprint (fl f 0) (fl f 1) text)
   (* markdown: dedupe, ragged, (unused), implicit header *)
   | 8%N => Some (read_markdown (fl f 3) (fl f 0) (fl f 1) text)
+  (* DKVPX: dedupe; IFS, IPS (one byte each) *)
+  | 9%N => Some (Some (read_dkvpx (sep1 s 0 ",") (sep1 s 1 "=") (fl f 0) text))
   | _ => Some None
   end.
 
